@@ -342,6 +342,7 @@ int process_start(pid_t *process,
                                                                  : environ;
   env = strv_concat(parent, options.env.extra);
   if (env == NULL) {
+    r = -ENOMEM;
     goto finish;
   }
 
